@@ -290,7 +290,7 @@ class Rpc(WorldStream):
         cases = []
         for c in WorldStream.gen(self, tier, rng):
             if json_able(c["value"]):
-                c["as"] = rng.choice(["param", "result", "kwparam"])
+                c["as"] = rng.choice(["param", "result", "kwparam", "param", "result", "bparam", "bresult"])
                 c["version"] = rng.choice([1.0, 2.0])
                 cases.append(c)
         # falsy custom objects (zero Decimals) and every enum member / Decimal in each role and version: the
@@ -300,7 +300,7 @@ class Rpc(WorldStream):
             edge = [W.Dec("0"), W.Dec("0.00"), W.Dec("-0"), [W.Dec("0")], {"z": W.Dec("0")}]
             edge += [W.EnumV(d["cid"], m) for d in descs if d["kind"] == "enum" for m in d["members"]][:4]
             for v in edge:
-                for role in ("param", "result", "kwparam"):
+                for role in ("param", "result", "kwparam", "bparam", "bresult"):
                     for ver in (1.0, 2.0):
                         cases.append({"world": descs, "value": W.dv_copy(v), "as": role, "version": ver})
         return cases
@@ -320,12 +320,27 @@ class Rpc(WorldStream):
 
         def echo(*a, **k):
             received.append((a, k))
-            return obj_for_result if case["as"] == "result" else None
+            return obj_for_result if case["as"] in ("result", "bresult") else None
         disp.register_function(echo, "echo")
         proxy = self.J.ServerProxy("http://localhost/", transport=Loopback(disp), config=cfg(), version=case["version"])
-        obj = obj_for_result if case["as"] == "result" else w.build(case["value"])
+        obj = obj_for_result if case["as"] in ("result", "bresult") else w.build(case["value"])
         view = w.model_view(obj)
-        if case["as"] == "param":
+        if case["as"] in ("bparam", "bresult"):
+            # the same trip inside a MultiCall batch (the decoded message is then a list of envelopes)
+            def batch():
+                mc = self.J.MultiCall(proxy, config=cfg())
+                mc.echo(0)
+                if case["as"] == "bparam":
+                    mc.echo(obj)
+                else:
+                    mc.echo()
+                return list(mc())[1]
+            r = outcome(batch)
+            if case["as"] == "bparam":
+                got = ("ok", w.abstract(received[1][0][0])) if r[0] == "ok" and len(received) > 1 else r
+            else:
+                got = ("ok", w.abstract(r[1])) if r[0] == "ok" else r
+        elif case["as"] == "param":
             r = outcome(lambda: proxy.echo(obj))
             got = ("ok", w.abstract(received[0][0][0])) if r[0] == "ok" and received else r
         elif case["as"] == "kwparam":
